@@ -27,6 +27,16 @@ Theorem C18_acceptor_sound : forall ps o, accepts ps o = true -> Blocks ps o.
 Proof. exact accepts_sound. Qed.
 Print Assumptions C18_acceptor_sound.
 
+(* ... and the acceptor the runner evaluates (on binary numbers: recorded counts reach 2^62) is that acceptor *)
+From GS Require Import DispatchMeter.
+Theorem C18_acceptor_binary : forall ps o, acceptsN ps o = accepts (map to_phase ps) (map to_line o).
+Proof. exact acceptsN_accepts. Qed.
+Print Assumptions C18_acceptor_binary.
+
+Theorem C18_acceptor_binary_sound : forall ps o, acceptsN ps o = true -> Blocks (map to_phase ps) (map to_line o).
+Proof. exact acceptsN_sound. Qed.
+Print Assumptions C18_acceptor_binary_sound.
+
 (* non-vacuity: a schedule with a stale tick after Done and a tick across a phase boundary *)
 Example C18_example :
   let sch := [W; T 0; W; W; T 0; W; T 0; W; T 0; T 1; W; W; T 1; T 0] in
